@@ -52,3 +52,66 @@ def c01(ck):
     r = gen_and_replay(ck, "GenC01", consts, timeout=1500)
     ck.exhaustive = True
     ck.extra["bounds"] = consts
+
+
+@check("C13")
+def c13(ck):
+    ck.rule = ("every collection builtin of the property (49 names) x every argument tuple of arity 0..2 over a "
+               "33-value pool and arity 3 over a pool prefix; allowed outcome from Coll.tla/Def.tla; replayed as "
+               "(f 'a1 'a2 ..) through lisp.EVAL in a fresh environment; distinct = distinct calls on which the "
+               "oracle does not abstain")
+    consts = {"MaxAr": 2, "Pool3": 8 if ck.quick else 16}
+    gen_and_replay(ck, "GenC13", consts, timeout=1500)
+    ck.exhaustive = True
+    ck.extra["bounds"] = consts
+
+
+def write_ndjson(path, rows):
+    import json
+    with open(path, "w") as f:
+        for r in rows:
+            f.write(json.dumps(r, ensure_ascii=False) + "\n")
+
+
+@check("C14")
+def c14(ck):
+    import os
+    ck.rule = ("(= a b) for every ordered pair of a 72-expression pool of data values built along different "
+               "construction paths; allowed result = StructEq of the values Def.tla computes; replayed through "
+               "lisp.EVAL; then the OBSERVED Boolean matrix is validated by TraceEq.tla (reflexive, symmetric, "
+               "transitive). distinct = distinct ordered pairs")
+    r = gen_and_replay_keep(ck, "GenC14", {})
+    ck.exhaustive = True
+    # Direction B: the observed relation must be an equivalence (checked by TLC on the recorded matrix)
+    rows = {}
+    for c, v in r:
+        o = v.get("obs", {})
+        eq = 1 if (o.get("k") == "val" and o.get("v", {}).get("t") == "bool" and o["v"].get("i") == 1) else 0
+        rows[(c["i"], c["j"])] = eq
+    n = max(i for i, _ in rows)
+    path = os.path.join(ck.scratch, "eqmatrix.ndjson")
+    write_ndjson(path, [{"i": i, "j": j, "eq": rows[(i, j)]} for i in range(1, n + 1) for j in range(1, n + 1)])
+    t = ck.tlc("TraceEq", cfg(invariants=["Reflexive", "Symmetric", "Transitive"]), workers=1,
+               env={"VERIF_TRACE": path}, want_cases=False, timeout=600)
+    ck.traces_validated += 1
+    if t.exit == 12 and t.violated:
+        # localise: which law fails on the observed matrix; reported only because the harness observed it
+        ck.report("relation:%s" % t.violated, "observed (= a b) matrix is not %s" % t.violated.lower(),
+                  {"case": {"kind": "eqmatrix", "law": t.violated}, "tlc_tail": tail(t.stdout_path)})
+    elif t.exit != 0:
+        raise InfraError("TraceEq failed: exit %s\n%s" % (t.exit, tail(t.stdout_path)))
+
+
+def tail(path, n=30):
+    from vrun import tail_file
+    return tail_file(path, n)
+
+
+def gen_and_replay_keep(ck, module, constants, timeout=900):
+    """like gen_and_replay but returns [(case, verdict)]"""
+    r = ck.tlc(module, cfg(constants=constants), timeout=timeout)
+    ck.tlc_ok(r, module)
+    args = ck.write_ctx(r.ctx) if r.ctx else []
+    vs = ck.replay(r.cases, args=args)
+    byid = {v["id"]: v for v in vs}
+    return [(c, byid[c["id"]]) for c in r.cases]
